@@ -17,7 +17,9 @@ META = {
              "entries as a finite map of signature multisets; validator sets only through their two hashes); equal block "
              "hashes imply equivalence or an explicit BLAKE2b collision; prevote/precommit/proposal sign bytes are injective "
              "over (kind,height,round,hash incl. nil) / the signed proposal fields and pairwise disjoint across kinds. "
-             "All for arbitrary byte strings (bytes < 256) and arbitrary N heights/rounds.",
+             "All for arbitrary byte strings (bytes < 256) and arbitrary N heights/rounds. Not expressible in the pure model and therefore only "
+             "observed by the harness: the returned byte slices are kept and re-read after later calls (a result that shares memory with "
+             "a reused buffer changes under the caller).",
     "note": "Trusted: Coq kernel; the hand-written model is tied to the Go code only by the differential run (generated "
             "headers/targets, hash compared through python hashlib.blake2b(digest_size=32)); BLAKE2b itself is an "
             "uninterpreted Section variable (binding is stated modulo an explicit collision). The validator lists are not "
